@@ -51,7 +51,8 @@ RULE = ("Every case is executed by every child process of the pool (hash seeds 0
         "refine: 2-7 hits on one or two proteins, 2-5 profiles (lengths 10/20/50/100), starts copied from earlier "
         "hits (equal starts), scores from a 3-value set, both modes; hmmer: HmmerHits around overlap_limit with "
         "equal normalised scores; filter: HSPs of equivalent profiles overlapping by 19-22 with equal scores; "
-        "detect: records of 2-8 genes (gaps around the cutoff, optional origin-spanning gene), 1-4 rules built from "
+        "detect: records of 2-8 genes (gaps around the cutoff, one gene in five with an antisense partner of equal start and "
+        "length, optional origin-spanning gene), 1-4 rules built from "
         "condition templates over 6 dynamic profiles (plain names, or names equal up to case / prefixes of each other / "
         "differing only in '-' and '_' / digits against letters, several of them defining one rule on one gene), often sharing cutoff/neighbourhood so that protoclusters of "
         "different products get equal coordinates, superiors, extenders, existing subregions; areas: 1-6 "
@@ -542,7 +543,8 @@ def check_filter(spec: dict) -> dict:
 
 NONTRIVIAL_AREA_CLASSES = {"equal_coordinate_protoclusters", "equal_coordinate_candidates", "unordered_protoclusters",
                            "definition_domains_equal_up_to_case", "definition_domains_equal_up_to_punctuation",
-                           "region_with_several_products", "cds_with_several_definition_domains"}
+                           "region_with_several_products", "cds_with_several_definition_domains",
+                           "equal_coordinate_cdses_in_crossing_area", "equal_coordinate_cdses_in_plain_area"}
 
 
 def _detect_facts(spec: dict) -> dict:
@@ -620,29 +622,9 @@ def _sig(func):
     return func
 
 
-# Every finding of rounds 1 and 2 has been repaired in /repo (see notes/C17.md and known_findings.json); their witnesses
-# are ordinary regressions in replays/C17/fixed-*.json and their signatures are gone.  One finding of round 3 is open:
-
-_TOOL_TIE_JSON = re.compile(r"^records\[\]\.areas\[\]\.(protoclusters\.\d+\.tool|candidates\[\]\.protoclusters(\[\])?)$")
-
-
-@_sig
-def _region_unique_protocluster_tool_tie(sub, spec, clause, detail) -> bool:
-    """ Region.get_unique_protoclusters sorts a set with the key (start, -length, product, core): two protoclusters
-        with the same product, location and core that come from different tools still tie.  The spec holds such a
-        pair AND the same areas are formed AND only the order of a region's protoclusters differs (in the results
-        JSON: the 'tool' of areas[].protoclusters.N and the index lists that refer to that numbering) """
-    if sub != "areas" or not detail.get("near_tie_tool"):
-        return False
-    if {"areas_sets", "candidate_member_repeats"} & set(detail.get("upstream") or []):
-        return False
-    where, kind = detail.get("where", ""), detail.get("kind")
-    if clause == "areas_differs":
-        return kind == "list_order" and where in ("regions[].unique_protoclusters",
-                                                  "regions[].unique_protocluster_numbers")
-    if clause == "results_json_differs":
-        return bool(_TOOL_TIE_JSON.match(where)) and kind in ("value", "list_order")
-    return False
+# Every finding of this check (rounds 1-3) has been repaired in /repo (see notes/C17.md and known_findings.json); the
+# witnesses are ordinary regressions in replays/C17/fixed-*.json and no signature is left: any disagreement between
+# runs is a plain violation.
 
 
 # =========================================================================== generators
@@ -776,13 +758,15 @@ def _genes(draw, cutoffs: list, max_genes: int = 8) -> tuple:
     genes = []
     pos = draw(st.sampled_from([0, 0, 3, 30, 200]))
     gaps = [0, 3, 30, 300, 900] + [c + d for c in cutoffs for d in (-1, 0, 1)]
-    for index in range(draw(st.integers(2, max_genes))):
+    for _ in range(draw(st.integers(2, max_genes))):
         size = 3 * draw(st.sampled_from([10, 20, 30, 60, 100]))
         if genes:
             pos += draw(st.sampled_from(gaps))
         start = max(0, pos)
         strand = draw(st.sampled_from([1, -1]))
-        genes.append({"name": f"g{index}", "loc": {"parts": [[start, start + size]], "strand": strand}})
+        genes.append({"name": f"g{len(genes)}", "loc": {"parts": [[start, start + size]], "strand": strand}})
+        if draw(st.integers(0, 4)) == 0:      # an antisense partner: same start and length, the other strand
+            genes.append({"name": f"g{len(genes)}", "loc": {"parts": [[start, start + size]], "strand": -strand}})
         pos = start + size
         if draw(st.integers(0, 9)) == 0:      # the next gene overlaps this one
             pos -= draw(st.sampled_from([3, 9, size // 2]))
